@@ -132,6 +132,63 @@ def wf_record(roll, r, tree, reg, problems, depth=0):
             wf_record(sr, e, st, reg, problems, depth + 1)
 
 
+def walk_check(root, problems):
+    """dyce.r.walk (the traversal clients use to inspect a record) against an independent traversal of the same
+    object graph: every roll / roller / outcome reachable from the root is visited exactly once and is handed
+    exactly the set of visited objects that refer to it (source_rolls / sources)"""
+    from dyce.r import R, Roll, RollOutcome, RollerWalkerVisitor, RollOutcomeWalkerVisitor, RollWalkerVisitor, walk
+
+    class V(RollWalkerVisitor, RollerWalkerVisitor, RollOutcomeWalkerVisitor):
+        __slots__ = ("seen",)
+
+        def __init__(self):
+            self.seen = {"roll": [], "roller": [], "outcome": []}
+
+        def on_roll(self, roll, parents):
+            self.seen["roll"].append((id(roll), sorted(id(p) for p in parents)))
+
+        def on_roller(self, r, parents):
+            self.seen["roller"].append((id(r), sorted(id(p) for p in parents)))
+
+        def on_roll_outcome(self, roll_outcome, parents):
+            self.seen["outcome"].append((id(roll_outcome), sorted(id(p) for p in parents)))
+
+    def closure(starts, succ):
+        objs, todo = {}, list(starts)
+        while todo:
+            x = todo.pop()
+            if id(x) in objs:
+                continue
+            objs[id(x)] = x
+            todo.extend(succ(x))
+        return objs
+
+    def expect(objs, succ):
+        par = {i: set() for i in objs}
+        for i, x in objs.items():
+            for s in succ(x):
+                par[id(s)].add(i)
+        return sorted((i, sorted(ps)) for i, ps in par.items())
+
+    rolls = closure([root] if isinstance(root, Roll) else [], lambda x: list(x.source_rolls))
+    rollers = closure([x.r for x in rolls.values()] + ([root] if isinstance(root, R) else []), lambda x: list(x.sources))
+    outs = closure([o for x in rolls.values() for o in x] + ([root] if isinstance(root, RollOutcome) else []), lambda x: list(x.sources))
+    v = V()
+    try:
+        walk(root, v)
+    except Exception as e:  # noqa: BLE001
+        problems.append(f"walk() raised {type(e).__name__} on a well-formed record")
+        return
+    for kind, objs, succ in (("roll", rolls, lambda x: list(x.source_rolls)), ("roller", rollers, lambda x: list(x.sources)),
+                             ("outcome", outs, lambda x: list(x.sources))):
+        if sorted(v.seen[kind]) != expect(objs, succ):
+            got, exp = dict(v.seen[kind]), dict(expect(objs, succ))
+            if len(v.seen[kind]) != len(got) or set(got) != set(exp):
+                problems.append(f"walk() does not visit exactly once every {kind} reachable from the root")
+            else:
+                problems.append(f"walk() reports a wrong set of parents for a {kind}")
+
+
 def impl_run(case):
     reg = {}
     r = build_with_paths(case["tree"], [], reg)
@@ -143,6 +200,10 @@ def impl_run(case):
             return {"exc": type(e).__name__}
         problems = []
         wf_record(roll, r, case["tree"], reg, problems)
+        walk_check(roll, problems)
+        if len(roll):
+            walk_check(roll[0], problems)
+        walk_check(r, problems)
         return {"ok": _rtree(roll, reg), "problems": sorted(set(problems))}
     paths, exhaustive = rl.explore(action, max_paths=150)
     return {"paths": paths, "exhaustive": exhaustive}
